@@ -299,6 +299,79 @@ Theorem C16_identifiers_preserved_otlp_log : forall res sc r,
 Proof. exact otlp_log_ids. Qed.
 Print Assumptions C16_identifiers_preserved_otlp_log.
 
+(* The two trace-context identifiers of a log record, EACH ON ITS OWN ("identifiers intact" at full strength:
+   what a record carries for an identifier -- its own field when set, else the attribute of the same name,
+   else nothing -- is what is stored, however the OTHER identifier is carried). *)
+Theorem C16_identifiers_preserved_otlp_log_any : forall res sc r,
+  lookup (s2b "trace_id") (otlp_log_build res sc r) =
+    Some (SStr (otlp_id_spec (o_trace r) (otlp_rec_attr (s2b "trace_id") r))) /\
+  lookup (s2b "span_id") (otlp_log_build res sc r) =
+    Some (SStr (otlp_id_spec (o_span r) (otlp_rec_attr (s2b "span_id") r))).
+Proof. exact otlp_log_ids_any. Qed.
+Print Assumptions C16_identifiers_preserved_otlp_log_any.
+
+Theorem C16_otlp_log_id_own_field_kept : forall res sc r,
+  (o_trace r <> [] -> lookup (s2b "trace_id") (otlp_log_build res sc r) = Some (SStr (o_trace r))) /\
+  (o_span r <> [] -> lookup (s2b "span_id") (otlp_log_build res sc r) = Some (SStr (o_span r))).
+Proof. exact otlp_log_id_own_field. Qed.
+Print Assumptions C16_otlp_log_id_own_field_kept.
+
+Theorem C16_otlp_log_id_taken_from_attribute : forall res sc r v,
+  (o_trace r = [] -> otlp_rec_attr (s2b "trace_id") r = Some v ->
+   lookup (s2b "trace_id") (otlp_log_build res sc r) = Some (SStr (fmt_v v))) /\
+  (o_span r = [] -> otlp_rec_attr (s2b "span_id") r = Some v ->
+   lookup (s2b "span_id") (otlp_log_build res sc r) = Some (SStr (fmt_v v))).
+Proof. exact otlp_log_id_from_attribute. Qed.
+Print Assumptions C16_otlp_log_id_taken_from_attribute.
+
+Theorem C16_otlp_log_id_absent_stays_empty : forall res sc r,
+  (o_trace r = [] -> otlp_rec_attr (s2b "trace_id") r = None ->
+   lookup (s2b "trace_id") (otlp_log_build res sc r) = Some (SStr [])) /\
+  (o_span r = [] -> otlp_rec_attr (s2b "span_id") r = None ->
+   lookup (s2b "span_id") (otlp_log_build res sc r) = Some (SStr [])).
+Proof. exact otlp_log_id_absent. Qed.
+Print Assumptions C16_otlp_log_id_absent_stays_empty.
+
+Theorem C16_otlp_log_ids_independent : forall res sc r res' sc' r',
+  (o_trace r = o_trace r' -> otlp_rec_attr (s2b "trace_id") r = otlp_rec_attr (s2b "trace_id") r' ->
+   lookup (s2b "trace_id") (otlp_log_build res sc r) = lookup (s2b "trace_id") (otlp_log_build res' sc' r')) /\
+  (o_span r = o_span r' -> otlp_rec_attr (s2b "span_id") r = otlp_rec_attr (s2b "span_id") r' ->
+   lookup (s2b "span_id") (otlp_log_build res sc r) = lookup (s2b "span_id") (otlp_log_build res' sc' r')).
+Proof. exact otlp_log_ids_independent. Qed.
+Print Assumptions C16_otlp_log_ids_independent.
+
+Theorem C16_otlp_log_id_attribute_kept : forall res sc r,
+  lookup (s2b "attributes.trace_id") (otlp_log_build res sc r) = otlp_rec_attr (s2b "trace_id") r /\
+  lookup (s2b "attributes.span_id") (otlp_log_build res sc r) = otlp_rec_attr (s2b "span_id") r.
+Proof. exact otlp_log_id_attr_kept. Qed.
+Print Assumptions C16_otlp_log_id_attribute_kept.
+
+(* ways of carrying an identifier: 0 own field, 1 attribute only, 2 both (different values), 3 neither *)
+Theorem C16_otlp_log_ids_sixteen_ways : forall res sc tm sm tf ta sf sa,
+  tm < 4 -> sm < 4 ->
+  lookup (s2b "trace_id") (otlp_log_build res sc (otlp_id_rec tm sm tf ta sf sa)) =
+    Some (SStr (otlp_id_carried tm tf ta)) /\
+  lookup (s2b "span_id") (otlp_log_build res sc (otlp_id_rec tm sm tf ta sf sa)) =
+    Some (SStr (otlp_id_carried sm sf sa)).
+Proof. exact otlp_log_ids_sixteen. Qed.
+Print Assumptions C16_otlp_log_ids_sixteen_ways.
+
+(* both fall-backs under the guard of the first identifier (NOT the code): the same function on records that carry
+   both identifiers the same way, a different one otherwise -- why the check needs records of the mixed kinds *)
+Theorem C16_otlp_ids_one_guard_same_on_uniform : forall r,
+  (o_trace r <> [] /\ o_span r <> []) \/ (o_trace r = [] /\ o_span r = []) ->
+  otlp_ids_one_guard r =
+  (otlp_id_spec (o_trace r) (otlp_rec_attr (s2b "trace_id") r), otlp_id_spec (o_span r) (otlp_rec_attr (s2b "span_id") r)).
+Proof. exact otlp_ids_one_guard_same_on_uniform. Qed.
+Print Assumptions C16_otlp_ids_one_guard_same_on_uniform.
+
+Theorem C16_otlp_ids_one_guard_differs : exists r1 r2,
+  o_span r1 <> [] /\ snd (otlp_ids_one_guard r1) <> o_span r1 /\
+  o_span r2 = [] /\ otlp_rec_attr (s2b "span_id") r2 = Some (SStr (s2b "b7ad6b7169203331")) /\
+  snd (otlp_ids_one_guard r2) = [].
+Proof. exact otlp_ids_one_guard_differs. Qed.
+Print Assumptions C16_otlp_ids_one_guard_differs.
+
 (* ---------- OTLP traces ---------- *)
 Theorem C16_span_time_always_arrival : forall x s index dec now0 tsNow clock,
   plain_index index -> lookup k_timestamp (map_set_all (sp_attrs s) []) = None ->
